@@ -9,6 +9,8 @@ mod schema_ops;
 mod canon;
 mod ops;
 mod gen;
+mod kf;
+mod libcorpus;
 
 fn main() {
     std::panic::set_hook(Box::new(|_| {}));
@@ -43,6 +45,8 @@ fn dispatch(op: &str, toks: &[&str]) -> String {
         return gen::dispatch(ty, op, &toks[1..]);
     }
     match op {
+        "kf" => return kf::dispatch(toks[0]),
+        "libcorpus" => return libcorpus::corpus().join(" | "),
         "probe_item" => return gen::item_probe(toks[0].parse().unwrap()),
         "probe_tuple" => return gen::tuple_probe(toks[0].parse().unwrap()),
         "probe_variant" => return gen::variant_probe(toks[0].parse().unwrap(), toks[1].parse().unwrap()),
